@@ -174,10 +174,13 @@ Print Assumptions C14_imports_sound_spec.
    crate c to a type of another generated crate d (judge_crate) that lies in dom_C14 is imported from d, under
    the name the type is generated under, in c's generated file.  dom_C14 = dom_named || dom_glob:
    (a) named - introduced by a plain / grouped / nested `use d::..::N` or a path d::..::N, nothing else in the
-       file brings in N from elsewhere, the target not serde-renamed, the name unique across crates, d and N
+       file brings in N from elsewhere, crate d generates its N under ONE name (one_generated_name: every type of
+       d with the Rust name N has the same generated name - serde-renamed or not; since the /repo fix of finding
+       C14-renamed-import the import names the generated name), the name unique across crates, d and N
        outside the ignore lists, N not type-mapped and not the name of a type of the file itself;
    (b) covered by a glob - the file says `use d::*;`, directly or nested (`use d::m::*;`, `use d::{m::*, X};`),
-       d outside the ignore lists (no condition on the target: renamed and same-named types included).
+       d outside the ignore lists (no condition on the target: renamed and same-named types included; `*` is
+       not the Rust name of a type of d - true of every parsed source).
    (uc agrees with ASCII below 128; ign is both ParseContext::ignored_types and the specification's `mapped`.) *)
 Theorem C14_imports_complete :
   forall (uc : unicode), unicode_ok uc ->
@@ -227,6 +230,18 @@ Theorem C14_imports_complete_nonvacuous :
 Proof. exact Proofs.C14Witness.imports_complete_nonvacuous. Qed.
 Print Assumptions C14_imports_complete_nonvacuous.
 
+(* the condition one_generated_name of (a) is needed: crate a with two types of the Rust name A2 (in two modules), generated
+   as A2 and as A2Other; `use a::A2;` - the tool rewrites the reference to A2Other (its rename table knows bare names) and
+   imports A2Other, the specification's renamed_in says A2: outside dom_C14, in no finding class, nothing claimed *)
+Theorem C14_two_generated_names_outside_domain :
+  one_generated_name (Proofs.C14Main.c14_infos uc_exec [] Proofs.C14Witness.ws_two_names) (lit "a") (lit "A2") = false /\
+  renamed_in (Proofs.C14Main.c14_infos uc_exec [] Proofs.C14Witness.ws_two_names) (lit "a") (lit "A2") = lit "A2" /\
+  Proofs.C14Witness.w_run (fun l => l) (fun l => l) Proofs.C14Witness.ws_two_names (lit "my_crate") =
+    Some ([(lit "a", lit "A2Other")], [(lit "A2", lit "a", false, None, false)]) /\
+  Proofs.C14Witness.w_field_types Proofs.C14Witness.ws_two_names (lit "my_crate") = [RSimple (lit "A2Other")].
+Proof. exact Proofs.C14Witness.two_names_eval. Qed.
+Print Assumptions C14_two_generated_names_outside_domain.
+
 (* the (b) half of the domain is inhabited too: `use a::*;` and a reference to the serde-renamed A2 - in
    dom_C14, in no finding class, imported (rv_imported: under the generated name, here A2Renamed) *)
 Theorem C14_imports_complete_glob_nonvacuous :
@@ -268,17 +283,6 @@ Proof. split; [exact Proofs.C14Order.used_imports_order_irrelevant_eq|exact Proo
 Print Assumptions C14_import_list_order_irrelevant.
 
 (* ---------------------------------------------------------------- finding classes of the unchanged tree *)
-
-(* C14-renamed-import: `use a::A2;` with A2 #[serde(rename = "A2Renamed")] - used, never imported *)
-Theorem C14_renamed_import_refuted :
-  exists arrivals pd v,
-    parse_workspace uc_exec [] [] (fun l => l) Proofs.C14Witness.ws_renamed = Ok arrivals /\
-    In (lit "my_crate", pd) (multi_crates (fun l => l) arrivals) /\
-    In v (judge_crate (Proofs.C14Main.c14_infos uc_exec [] Proofs.C14Witness.ws_renamed) [] (lit "my_crate")
-            (scoped_pairs (crate_imports (fun l => l) (multi_crates (fun l => l) arrivals) (lit "my_crate") pd))) /\
-    rv_known v = Some "C14-renamed-import" /\ rv_imported v = false.
-Proof. exact Proofs.C14Witness.renamed_import_refuted. Qed.
-Print Assumptions C14_renamed_import_refuted.
 
 (* C14-same-name: S in crates a and c, `use zz::S;` - under the reversed iteration order of CrateTypes the
    import comes from ./c, not from the first defining crate *)
@@ -327,6 +331,37 @@ Theorem C14_glob_order_fixed :
     Some ([(lit "a", lit "A1"); (lit "a", lit "A2Renamed"); (lit "a", lit "A3")], [(lit "A1", lit "a", true, None, true)]).
 Proof. exact Proofs.C14Witness.glob_order_eval. Qed.
 Print Assumptions C14_glob_order_fixed.
+
+(* formerly C14-renamed-import (`use a::A2;` with A2 #[serde(rename = "A2Renamed")]: the reference was written
+   A2Renamed and nothing was imported - the import candidate kept the Rust name A2, which crate a's type table does
+   not hold): reconcile_aliases puts the import set back with the generated names (reconcile.rs:71).  The former
+   witness: the reference is in dom_C14 (the target is generated under one name, A2Renamed), in no finding class,
+   and imported under that name ... *)
+Theorem C14_renamed_import_fixed :
+  renamed_in (Proofs.C14Main.c14_infos uc_exec [] Proofs.C14Witness.ws_renamed) (lit "a") (lit "A2") = lit "A2Renamed" /\
+  exists arrivals pd v,
+    parse_workspace uc_exec [] [] (fun l => l) Proofs.C14Witness.ws_renamed = Ok arrivals /\
+    In (lit "my_crate", pd) (multi_crates (fun l => l) arrivals) /\
+    In v (judge_crate (Proofs.C14Main.c14_infos uc_exec [] Proofs.C14Witness.ws_renamed) [] (lit "my_crate")
+            (scoped_pairs (crate_imports (fun l => l) (multi_crates (fun l => l) arrivals) (lit "my_crate") pd))) /\
+    rv_name v = lit "A2" /\ rv_from v = lit "a" /\ rv_dom v = true /\ rv_known v = None /\ rv_imported v = true.
+Proof. exact Proofs.C14Witness.renamed_import_fixed. Qed.
+Print Assumptions C14_renamed_import_fixed.
+
+(* ... exactly: the import pairs of my_crate and the verdicts (name, crate, in dom_C14, finding class, imported) for
+   the `use` form and for the qualified path `f: a::A2`; the field type handed to the back ends and the TypeScript
+   import statement *)
+Theorem C14_renamed_import_fixed_exact :
+  Proofs.C14Witness.w_run (fun l => l) (fun l => l) Proofs.C14Witness.ws_renamed (lit "my_crate") =
+    Some ([(lit "a", lit "A2Renamed")], [(lit "A2", lit "a", true, None, true)]) /\
+  Proofs.C14Witness.w_run (fun l => l) (fun l => l) Proofs.C14Witness.ws_renamed_path (lit "my_crate") =
+    Some ([(lit "a", lit "A2Renamed")], [(lit "A2", lit "a", true, None, true)]) /\
+  Proofs.C14Witness.w_field_types Proofs.C14Witness.ws_renamed (lit "my_crate") = [RSimple (lit "A2Renamed")] /\
+  Proofs.C14Witness.w_import_text Proofs.C14Witness.ws_renamed (lit "my_crate") = (lit "import { A2Renamed } from ""./a"";" ++ [10%N; 10%N])%list /\
+  Proofs.C14Witness.w_field_types Proofs.C14Witness.ws_renamed_path (lit "my_crate") = [RSimple (lit "A2Renamed")] /\
+  Proofs.C14Witness.w_import_text Proofs.C14Witness.ws_renamed_path (lit "my_crate") = (lit "import { A2Renamed } from ""./a"";" ++ [10%N; 10%N])%list.
+Proof. exact (conj Proofs.C14Witness.renamed_eval (conj Proofs.C14Witness.renamed_path_eval Proofs.C14Witness.renamed_text_eval)). Qed.
+Print Assumptions C14_renamed_import_fixed_exact.
 
 (* formerly C14-glob-const (k defines K1 and `const MyConst`; `use k::*; use k::K1;` imported MyConst from ./k
    while TypeScript writes that const as MY_CONST): a const is no longer in the type table (parser.rs push) -
